@@ -154,12 +154,15 @@ EXPLAIN_SCENARIOS = [
     ('dict[str, Iterable[int]]', "{'a': SizedStream([1, 'x'])}"), ('list[Iterable[int]]', "[SizedStream(['x'])] * 3"),
     ('tuple[Collection[int], int]', "(SizedStream([1, 2, 3]), 'bad')"), ('Union[Iterable[int], str]', "5"),
     ('tuple[Union[Iterable[int], str], int]', "(SizedStream([1, 2]), 'bad')"),
+    # accepting path too: a ChainMap over an auto-vivifying first map (ChainMap.__getitem__ probes every map with map[key])
+    ('ChainMap[str, int]', "ChainMap(defaultdict(int), {'a': 1})"), ('Mapping[str, int]', "ChainMap(defaultdict(int), {'a': 1})"), ('MutableMapping[str, int]', "ChainMap(defaultdict(int), {'a': 1})"),
+    ('tuple[Mapping[str, int], int]', "(ChainMap(defaultdict(int), {'a': 1}), 'bad')"), ('dict[str, int]', "defaultdict(int, {'a': 1})"), ('Mapping[str, list[int]]', "defaultdict(list, {'a': [1]})"),
 ]
 EXPLAIN_SRC = """
 from pyvc import replaylib, shapes
 from pyvc.replaylib import NS, snapshot
 import collections, sys
-NS.setdefault('defaultdict', collections.defaultdict)
+NS.setdefault('defaultdict', collections.defaultdict); NS.setdefault('ChainMap', collections.ChainMap)
 def one(hint_src, obj_src, entry, strategy):
     from beartype import beartype, BeartypeConf, BeartypeStrategy
     from beartype.door import die_if_unbearable
@@ -167,7 +170,7 @@ def one(hint_src, obj_src, entry, strategy):
     hint = shapes.ev(hint_src); obj = eval(obj_src, NS); conf = BeartypeConf(strategy=getattr(BeartypeStrategy, strategy))
     def snap(o):
         parts = [snapshot(o)]
-        for it in (o if isinstance(o, (tuple, list)) else list(o.values()) if isinstance(o, dict) else ()): parts.append(snapshot(it))
+        for it in (o if isinstance(o, (tuple, list)) else list(dict.values(o)) if isinstance(o, dict) else ()): parts.append(snapshot(it))
         return parts
     before = snap(obj); replaylib.force_draw(1)
     try:
